@@ -418,6 +418,7 @@ func checkC04(c *Ctx, r *Report) {
 	// the acceptance rules above are rules about the retried operations: nothing is transmitted,
 	// and hence no reply taken, anywhere else (shared with C09, C10, C13, C18)
 	checkSendSites(c, r)
+	checkRefusedLeavesNoTrace(c, r)
 
 	// "a valid AuthCode under the session's K1": the integrity algorithm the session verifies with
 	// is the negotiated one at its specified length — a hash truncated to nothing accepts an empty
